@@ -1396,7 +1396,9 @@ impl<'cmd> Parser<'cmd> {
         debug!("Parser::remove_overrides: id={:?}", arg.id);
         for override_id in &arg.overrides {
             debug!("Parser::remove_overrides:iter:{override_id:?}: removing");
-            matcher.remove(override_id);
+            if matcher.remove(override_id) {
+                self.remove_from_groups(override_id, matcher);
+            }
         }
 
         // Override anything that can override us
@@ -1410,7 +1412,16 @@ impl<'cmd> Parser<'cmd> {
         }
         for overrider_id in transitive {
             debug!("Parser::remove_overrides:iter:{overrider_id:?}: removing");
-            matcher.remove(overrider_id);
+            if matcher.remove(overrider_id) {
+                self.remove_from_groups(overrider_id, matcher);
+            }
+        }
+    }
+
+    /// An overridden argument no longer makes its groups present
+    fn remove_from_groups(&self, arg_id: &Id, matcher: &mut ArgMatcher) {
+        for group in self.cmd.groups_for_arg(arg_id) {
+            matcher.remove_from_group(&group, arg_id);
         }
     }
 
